@@ -67,9 +67,9 @@ class Set(Conclusion[T]):
                     yield_when_false: bool = False) -> Dict[int, HashedValue]:
         self._yield_when_false_ = False
         if self.var._var_._id_ not in sources:
-            parent_value = next(iter(self.var._evaluate__(sources)))[self.var._var_._id_]
+            parent_value = next(iter(self.var._evaluate_as_value_(sources)))[self.var._var_._id_]
             sources[self.var._var_._id_] = parent_value
-        sources[self.var._var_._id_] = next(iter(self.value._evaluate__(sources)))[self.value._id_]
+        sources[self.var._var_._id_] = next(iter(self.value._evaluate_as_value_(sources)))[self.value._id_]
         return sources
 
 
@@ -80,6 +80,6 @@ class Add(Conclusion[T]):
     def _evaluate__(self, sources: Optional[Dict[int, HashedValue]] = None,
                     yield_when_false: bool = False) -> Dict[int, HashedValue]:
         self._yield_when_false_ = False
-        v = next(iter(self.value._evaluate__(sources)))[self.value._id_]
+        v = next(iter(self.value._evaluate_as_value_(sources)))[self.value._id_]
         sources[self.var._var_._id_] = v
         return sources
